@@ -19,7 +19,7 @@ func c10Extra(r *core.Run) {
 
 	r.Check("D3/K2/tombstone-keeps-index", "discarding a tombstone does not touch the timers index: in a function that branches on timingEntry.removed, no timers.Del is reachable from the removed arm (a move-earlier leaves the key's index entry pointing at the new, live entry: deleting it makes the live task unreachable for Remove/Move and lets Set add a second one)", func(o *core.O) {
 		n := 0
-		for _, f := range p.PkgFuncs(pkg) {
+		for _, f := range c10Funcs(p, pkg) {
 			removed := core.BoolVal(core.FieldLoad("timingEntry.removed"))
 			edges, _ := core.EdgesOf(f, removed)
 			dels := core.Instrs(f, isTimersDel)
@@ -56,7 +56,7 @@ func c10Extra(r *core.Run) {
 		}}
 		strict := core.CmpPoly(alg, core.ParsePoly("I - d"), false)
 		n := 0
-		for _, f := range p.PkgFuncs(pkg) {
+		for _, f := range c10Funcs(p, pkg) {
 			if f.Parent() != nil {
 				continue
 			}
@@ -82,7 +82,7 @@ func c10Extra(r *core.Run) {
 	r.Check("D3/K10/per-task-panic-isolation", "each due task is executed in its own recover scope: every call of TimingWheel.execute sits in a function literal handed to threading.RunSafe/GoSafe and is not inside a loop of that literal (a panicking callback must not swallow the other tasks of the tick, which were already unlinked and un-indexed)", func(o *core.O) {
 		// the literals handed to RunSafe/GoSafe
 		safe := map[*ssa.Function]bool{}
-		for _, f := range p.PkgFuncs(pkg) {
+		for _, f := range c10Funcs(p, pkg) {
 			for _, c := range core.Calls(f, core.CallTo("lib/threading.RunSafe", "lib/threading.GoSafe")) {
 				if body, _ := gxClosureOf(core.Args(c)[0]); body != nil {
 					safe[body] = true
@@ -90,7 +90,7 @@ func c10Extra(r *core.Run) {
 			}
 		}
 		n := 0
-		for _, f := range p.PkgFuncs(pkg) {
+		for _, f := range c10Funcs(p, pkg) {
 			for _, in := range core.Instrs(f, isExecute) {
 				if _, plain := in.(*ssa.Call); !plain {
 					continue
